@@ -13,7 +13,7 @@ fn check_matrix(r: usize, n: usize, mask: u64, acc: &mut Acc) {
     let key = format!("systematic:{}x{}:{}", r, n, m.alist_like());
     let replay = json!({"kind": "matrix", "r": r, "n": n, "mask": mask});
     let rank = m.rank();
-    let h = m.sparse();
+    let h = m.sparse_var();
     let res = guard(|| parity_to_systematic(&h));
     match res {
         Err(e) => {
